@@ -81,6 +81,11 @@ impl Storage<Key> for CountingStorage {
 }
 
 fn canon_key(k: &Key) -> String {
+    // bulk keys are unique by construction (their names are never used by the pool keys): their name is their class,
+    // which keeps the reference model linear when a case creates thousands of them
+    if k.name().starts_with("bulk") && k.labels().len() == 0 {
+        return k.name().to_string();
+    }
     class_of(k)
 }
 
@@ -246,7 +251,7 @@ fn run_sequential(case: &Case, ctx: &mut Ctx) -> Result<(), Fail> {
                 let pred = |k: &Key, _: &Arc<Slot>| k.labels().any(|l| l.key() == label);
                 by_kind!(*kind, registry, retain_counters, retain_gauges, retain_histograms, pred);
                 let has_label: Vec<bool> = CLASSES.with(|c| c.borrow().iter().map(|k| k.labels().any(|l| l.key() == label)).collect());
-                model.retain(|(mk, c), _| *mk != *kind || has_label[c[5..].parse::<usize>().unwrap()]);
+                model.retain(|(mk, c), _| *mk != *kind || (c.starts_with("class") && has_label[c[5..].parse::<usize>().unwrap()]));
             }
             Op::Clear => {
                 registry.clear();
